@@ -18,6 +18,9 @@ type Config struct {
 	Functions []string `json:"functions"` // function keys to verify
 	Lemmas    []string `json:"lemmas"`    // lemma names ("*" = all declared in loaded contract files)
 	Unfold    int      `json:"unfold_depth"`
+	// contract files zz_contracts_verif.go are always loaded; zz_contracts_<tag>_verif.go only for the tags listed here
+	// (contracts of different properties for the same package live in separate files and do not see each other)
+	Tags []string `json:"contract_tags"`
 }
 
 type KnownFinding struct {
@@ -107,7 +110,7 @@ func main() {
 	var contractLemmas []string
 	for _, p := range v.pkgs {
 		for _, f := range p.GoFiles {
-			if filepath.Base(f) == "zz_contracts_verif.go" {
+			if isContractFile(filepath.Base(f), cfg.Tags) {
 				before := len(v.lemmaOrder)
 				if err := v.LoadSpecFile(f, p.PkgPath, false); err != nil {
 					engineFail(*out, cfg.Property, fmt.Sprintf("contract file: %v", err))
@@ -316,4 +319,20 @@ func (v *Verifier) splitKnown() {
 		out = append(out, &o1, &o2)
 	}
 	v.obligations = out
+}
+
+func isContractFile(base string, tags []string) bool {
+	if base == "zz_contracts_verif.go" {
+		return true
+	}
+	if !strings.HasPrefix(base, "zz_contracts_") || !strings.HasSuffix(base, "_verif.go") {
+		return false
+	}
+	tag := strings.TrimSuffix(strings.TrimPrefix(base, "zz_contracts_"), "_verif.go")
+	for _, t := range tags {
+		if t == tag {
+			return true
+		}
+	}
+	return false
 }
